@@ -246,38 +246,38 @@ Lemma compileDecls_props : forall ds s acc s1 r, twf s -> compileDecls tfixed s 
   twf s1 /\ frozen s s1 /\ ran s1 = ran s /\ (Forall no_method ds -> untouched s s1).
 Proof.
   induction ds as [|d ds IH]; intros s acc s1 r W H; simpl in H.
-  - inversion H; subst. repeat split; auto using frozen_refl, untouched_refl.
+  - inversion H; subst. split; [auto|split; [apply frozen_refl|split; [auto|intros _; apply untouched_refl]]].
   - destruct (compileDecl tfixed s d) as [[s0 a]|] eqn:CD.
     + destruct (compileDecl_props _ _ _ _ W CD) as [W0 [F0 [R0 U0]]].
       destruct (IH _ _ _ _ W0 H) as [W1 [F1 [R1 U1]]].
-      repeat split; auto; try congruence.
-      * eapply frozen_trans; eauto.
-      * intro NM. inversion NM; subst. eapply untouched_trans; eauto.
+      split; [auto|split; [eapply frozen_trans; eauto|split; [congruence|]]].
+      intro NM. inversion NM; subst. eapply untouched_trans; eauto.
     + inversion H; subst. destruct (failState_props s d W) as [W0 [F0 [R0 U0]]].
-      repeat split; auto. intro NM. inversion NM; subst. auto.
+      split; [auto|split; [auto|split; [auto|]]]. intro NM. inversion NM; subst. auto.
 Qed.
 
 Lemma runAction_props : forall s a, twf s -> twf (runAction s a) /\ frozen s (runAction s a) /\
   tmap (runAction s a) = tmap s /\ vmap (runAction s a) = vmap s.
 Proof.
   intros s a W. destruct a; simpl.
-  - destruct (bget (theap s) tid) as [o0|] eqn:G0; [|repeat split; auto using frozen_refl].
+  - destruct (bget (theap s) tid) as [o0|] eqn:G0; [|split; [auto|split; [apply frozen_refl|auto]]].
     unfold twf, frozen, untouched; cbn [theap tnext tmap vmap ran].
     split; [|split; [split; [lia|]|split; auto]].
     + intros t o G. unfold hset in G. simpl in G. destruct (Z.eqb_spec t tid); [subst; apply W in G0; auto | apply W in G; auto].
     + intros t o G C. unfold hset. simpl. destruct (Z.eqb_spec t tid).
       * subst. rewrite G0 in G. inversion G; subst. eexists; repeat split; simpl; auto.
       * exists o. auto.
-  - repeat split; auto. apply frozen_refl.
+  - match goal with |- twf ?s' /\ _ => destruct (same_heap s s' eq_refl eq_refl W) as [A [B C]] end.
+    split; [auto|split; [auto|split; auto]].
 Qed.
 
 Lemma runActions_props : forall acts s, twf s -> twf (fold_left runAction acts s) /\ frozen s (fold_left runAction acts s) /\
   tmap (fold_left runAction acts s) = tmap s /\ vmap (fold_left runAction acts s) = vmap s.
 Proof.
   induction acts as [|a acts IH]; intros s W; simpl.
-  - repeat split; auto. apply frozen_refl.
+  - split; [auto|split; [apply frozen_refl|auto]].
   - destruct (runAction_props s a W) as [W1 [F1 [T1 V1]]]. destruct (IH _ W1) as [W2 [F2 [T2 V2]]].
-    repeat split; auto; try congruence. eapply frozen_trans; eauto.
+    split; [auto|split; [eapply frozen_trans; eauto|split; congruence]].
 Qed.
 
 (* one evaluation of the current code *)
@@ -289,9 +289,15 @@ Lemma tEval_props : forall s ds, twf s ->
 Proof.
   intros s ds W. unfold tEval. destruct (compileDecls tfixed s ds []) as [s1 [acts|]] eqn:CD;
   destruct (compileDecls_props _ _ _ _ _ W CD) as [W1 [F1 [R1 U1]]]; simpl.
-  - destruct (runActions_props acts s1 W1) as [W2 [F2 _]]. repeat split; auto; try discriminate.
-    eapply frozen_trans; eauto.
-  - repeat split; auto.
+  - destruct (runActions_props acts s1 W1) as [W2 [F2 _]].
+    split; [auto|split; [eapply frozen_trans; eauto|discriminate]].
+  - assert (X : twf (mkTst (tmap s) (theap s1) (tnext s1) (vmap s) (ran s1)) /\
+                frozen s1 (mkTst (tmap s) (theap s1) (tnext s1) (vmap s) (ran s1)) /\
+                untouched s1 (mkTst (tmap s) (theap s1) (tnext s1) (vmap s) (ran s1)))
+      by (apply same_heap; auto).
+    destruct X as [A [B C]].
+    split; [auto|split; [eapply frozen_trans; eauto|]]. intros _.
+    split; [auto|split; [auto|split; [auto|]]]. intro NM. eapply untouched_trans; eauto.
 Qed.
 
 Lemma twf0 : twf tst0.
@@ -301,8 +307,8 @@ Lemma tRun_wf : forall h s, twf s -> twf (tRun tfixed s h) /\ frozen s (tRun tfi
 Proof.
   induction h as [|ds h IH]; intros s W; simpl.
   - split; auto. apply frozen_refl.
-  - destruct (tEval_props s ds W) as [W1 [F1 _]]. destruct (IH _ W1) as [W2 [F2]].
-    split; auto. eapply frozen_trans; eauto. split; auto.
+  - destruct (tEval_props s ds W) as [W1 [F1 _]]. destruct (IH _ W1) as [W2 F2].
+    split; auto. eapply frozen_trans; eauto.
 Qed.
 
 Lemma tRun_app : forall g h1 h2 s, tRun g s (h1 ++ h2) = tRun g (tRun g s h1) h2.
